@@ -1369,7 +1369,7 @@ theorem shape_op_coherent_all :
     intro call t bs bs' g hp _
     obtain ⟨t', h1, h2⟩ := goodCall_leaf call bs bs' g t hp
     exact ⟨.leaf t', by simp [applyEntry, h1, Except.map], h2, by simp [Coherent]⟩
-  · -- applyEntry node, squeeze() chain: not a `GoodCall` (squeeze() on whole trees rests on the correspondence streams td:valid / td:chain)
+  · -- applyEntry node, squeeze() chain: not a `GoodCall` (its whole-tree statement is `squeezeAll_coherent_all` / `squeezeAll_coherent`)
     intro bs2 names2 es2 ds shape n _ _ bs bs' g _ _
     cases g
   · -- applyEntry node
@@ -1827,6 +1827,110 @@ theorem catEntry_coh [Inhabited α] (dim : Nat) (e : TD α) (vals : List (TD α)
       rw [List.take_set, hp, hs, hg]
 termination_by (sizeOf e, 0)
 end
+
+
+/-! ## whole trees: squeeze() -/
+
+/-- `squeeze()` (no dim) on a whole coherent tree — the chain `_squeeze` applies to a nested tensordict, at every depth: when the call goes
+through, every entry of the result carries the squeezed batch size (`eraseDims bs ds`: the positions `ds` erased) as a prefix; tensor leaves
+are viewed, nested tensordicts are squeezed at the same positions, their own extra dims untouched -/
+theorem squeezeAll_coherent_all (ds : List Nat) :
+    (∀ (op : Op) (bs : Shape) (names : Names) (es : List (String × TD α)), True) ∧
+    (∀ (call : LeafCall) (es : List (String × TD α)), ∀ B sh n, call = .squeezeDims ds sh n → sh = eraseDims B ds → n = B.length →
+        (∀ d ∈ ds, d < B.length) → CoherentList B es → ∀ es', mapEntries call es = .ok es' → CoherentList (eraseDims B ds) es') ∧
+    (∀ (call : LeafCall) (e : TD α), ∀ B sh n, call = .squeezeDims ds sh n → sh = eraseDims B ds → n = B.length →
+        (∀ d ∈ ds, d < B.length) → PrefixOK B e → Coherent e → ∀ e', applyEntry call e = .ok e' →
+        PrefixOK (eraseDims B ds) e' ∧ Coherent e') := by
+  apply tdNode.mutual_induct (α := α)
+    (motive1 := fun _ _ _ _ => True)
+    (motive2 := fun call es => ∀ B sh n, call = .squeezeDims ds sh n → sh = eraseDims B ds → n = B.length →
+        (∀ d ∈ ds, d < B.length) → CoherentList B es → ∀ es', mapEntries call es = .ok es' → CoherentList (eraseDims B ds) es')
+    (motive3 := fun call e => ∀ B sh n, call = .squeezeDims ds sh n → sh = eraseDims B ds → n = B.length →
+        (∀ d ∈ ds, d < B.length) → PrefixOK B e → Coherent e → ∀ e', applyEntry call e = .ok e' →
+        PrefixOK (eraseDims B ds) e' ∧ Coherent e')
+  · intros; trivial
+  · intro call B sh n _ _ _ _ _ es' h
+    simp [mapEntries, pure, Except.pure] at h; subst h; simp [CoherentList]
+  · intro call k e rest ih3 ih2 B sh n hc hsh hn hds hco es' h
+    simp only [mapEntries, bind, Except.bind] at h
+    split at h
+    · cases h
+    · rename_i e' he
+      split at h
+      · cases h
+      · rename_i rest' hr
+        simp only [pure, Except.pure, Except.ok.injEq] at h
+        subst h
+        simp only [CoherentList] at hco ⊢
+        obtain ⟨hp, hce⟩ := ih3 B sh n hc hsh hn hds hco.1 hco.2.1 e' he
+        exact ⟨hp, hce, ih2 B sh n hc hsh hn hds hco.2.2 rest' hr⟩
+  · intro call t B sh n hc hsh hn hds hp _ e' h
+    subst hc
+    simp only [applyEntry, applyLeaf, Except.map] at h
+    split at h
+    · cases h
+    · rename_i t' ht
+      simp only [Except.ok.injEq] at h
+      subst h
+      refine ⟨?_, by simp [Coherent]⟩
+      -- torch.reshape to `sh ++ t.shape.drop n`: on success the result has that shape
+      have hshape : t'.shape = sh ++ t.shape.drop n := by
+        unfold Torch.reshape at ht
+        split at ht
+        · cases ht
+        · rename_i s' hs'
+          simp only [Except.ok.injEq] at ht
+          rw [← ht]
+          exact inferSize_ofNats_some _ _ _ hs'
+      simp only [PrefixOK]
+      rw [hshape, ← hsh, List.take_left']
+      rfl
+  · intro bs2 nm2 es2 ds' shape n' bs1 ih B sh n hc hsh hn hds hp hco e' h
+    have hds' : ds' = ds := by cases hc; rfl
+    subst hds'
+    rw [applyEntry_node_squeezeDims] at h
+    split at h
+    · cases h
+    · rename_i es' hes
+      simp only [Except.ok.injEq] at h
+      subst h
+      simp only [PrefixOK] at hp
+      obtain ⟨ext, rfl⟩ := prefix_split B bs2 hp
+      simp only [Coherent] at hco
+      have hds2 : ∀ d ∈ ds', d < (B ++ ext).length := fun d hd => by have := hds d hd; simp; omega
+      have hc' := ih (B ++ ext) (eraseDims (B ++ ext) ds') (B ++ ext).length rfl rfl rfl hds2 hco es' hes
+      refine ⟨?_, by simpa [Coherent] using hc'⟩
+      simp only [PrefixOK]
+      rw [eraseDims_append B ext ds' hds]
+      exact List.take_left' rfl
+  · intro call bs names es hns _ B sh n hc _ _ _ _ _ e' _
+    exact absurd hc (fun e => hns _ _ _ e)
+
+
+/-- **`td.squeeze()` on a coherent tree** (every entry carries its parent's batch size as a prefix, at every depth): when the call goes
+through, the result has batch size `bs` without its size-1 dims and is coherent again; nothing happens when there is no size-1 dim -/
+theorem squeezeAll_coherent (bs : Shape) (names : Names) (es : List (String × TD α)) (r : TD α)
+    (hc : CoherentList bs es) (h : tdNode (.squeeze none) bs names es = .ok r) :
+    (bs.filter (· ≠ 1) = bs ∧ r = .node bs names es) ∨
+    ∃ nm es', r = .node (bs.filter (· ≠ 1)) nm es' ∧ CoherentList (bs.filter (· ≠ 1)) es' := by
+  unfold tdNode at h
+  simp only [opMeta, squeezeMeta, bind, Except.bind] at h
+  by_cases hb : bs.filter (· ≠ 1) = bs
+  · left
+    simp only [hb, if_true, pure, Except.pure, Except.ok.injEq] at h
+    exact ⟨hb, h.symm⟩
+  · right
+    simp only [hb, if_false] at h
+    split at h
+    · cases h
+    · rename_i es' hes
+      simp only [pure, Except.pure, Except.ok.injEq] at h
+      have hds : ∀ d ∈ (List.range bs.length).filter (fun i => bs.getD i 0 = 1), d < bs.length := by
+        intro d hd; simpa using (List.mem_filter.1 hd).1
+      have := (squeezeAll_coherent_all (α := α) ((List.range bs.length).filter fun i => bs.getD i 0 = 1)).2.1
+        _ es bs _ _ rfl (eraseDims_ones bs).symm rfl hds hc es' hes
+      rw [eraseDims_ones] at this
+      exact ⟨_, es', h.symm, this⟩
 
 
 /-! ## non-vacuity: the hypotheses are satisfiable by concrete, non-trivial values, and the models compute -/
